@@ -155,6 +155,16 @@ CLAIMED['C04'] = dict(
     technique='function contracts with loop invariants / decreases clauses and a ghost target pixel, enforced by CBMC DFCC on extracted real bodies',
     design='4/C04')
 
+CLAIMED['C15'] = dict(
+    text='Partial (index and boundary bookkeeping). Loop-contract proof of detail::correlate_rows_impl for all five boundary options (one cell per option) and of '
+         'kernel left_size/right_size: for EVERY output pixel (ghost coordinate), width >= 0 incl. narrower than the kernel, kernel size <= 4096, any centre: the '
+         'pixel is written at most once; under extend_* it is correlated; under output_zero / output_ignore it is correlated exactly when its window fits inside the row, '
+         'otherwise zeroed / left untouched; every buffer write, correlation window, source read and destination write is inside its range.',
+    note=TRUST + 'The numerical identity dst(i) = sum_k src(i+k-c)*kernel(k), convolution-vs-correlation, column variants, 2-D convolution and fixed kernels are not covered. '
+         'assign_pixels / fill_n / the correlator are ghost range operations.',
+    technique='function contract with loop contract and ghost output pixel, enforced by CBMC DFCC on the extracted real body; partitioned over the boundary option',
+    design='4/C15')
+
 NOT_APPLICABLE = {
     'C12': 'relates two whole template pipelines through a file/stream and external C libraries; no function contract within reach of a C verifier states what read_image returns after write_view (DESIGN 5)',
     'C13': 'equality of results of different compositions of reader classes/devices/policies over the same bytes is a relational property over I/O histories, not a pre/postcondition of an extractable function (DESIGN 5)',
